@@ -12,6 +12,18 @@ from .common import explain, has_call, has_stmt
 M = "app_wrappers"
 
 
+def _bridge_waits(cs: ast.AST) -> bool:
+    """The thread->loop bridge returns `<run_coroutine_threadsafe(func(*args), loop)>.result()`:
+    the (single) return value, with single-use locals expanded, is a `.result()` call on the future."""
+    from ..astq import expand_locals
+
+    rets = [n for n in walk_local(cs) if isinstance(n, ast.Return)]
+    if len(rets) != 1 or rets[0].value is None:
+        return False
+    v = expand_locals(rets[0].value, cs)
+    return isinstance(v, ast.Call) and isinstance(v.func, ast.Attribute) and v.func.attr == "result" and not v.args and isinstance(v.func.value, ast.Call) and call_name(v.func.value) == "asyncio.run_coroutine_threadsafe" and norm(v.func.value.args[0]) == "func(*args)"
+
+
 def run(ctx: Ctx) -> None:
     repo = ctx.repo
     ctx.rule("C17.R1", "the WSGI application is called exactly once per request: one call site self.app(environ, start_response), not in a loop", floor=1)
@@ -45,7 +57,7 @@ def run(ctx: Ctx) -> None:
         ok = cs is not None
         if ok:
             rets = [n for n in walk_local(cs) if isinstance(n, ast.Return)]
-            ok = len(rets) == 1 and norm(rets[0].value) == "future.result()" and "asyncio.run_coroutine_threadsafe(func(*args)" in norm(cs)
+            ok = _bridge_waits(cs)
         ctx.check("C17.R2", f"{mod}:{q}", "thread -> loop bridge waits for the coroutine (future.result())", bool(ok), "a fire-and-forget bridge lets response.start and the body chunks run out of order: the chunks are rejected in state REQUEST and lost", cs)
     t = repo.func("trio.task_group", "TaskGroup.spawn_app")
     ok = "trio.to_thread.run_sync" in norm(t) and "trio.from_thread.run" in norm(t)
@@ -60,7 +72,7 @@ def run(ctx: Ctx) -> None:
         ok = len(cw) == 1 and len(cw[0].args) == 5 and [norm(a) for a in cw[0].args[:3]] == ["scope", "receive", "send"] and isinstance(getattr(cw[0], "_parent", None), ast.Await)
         if cls_.startswith("Asyncio"):
             cs = repo.find("middleware.wsgi", f"{cls_}.__call__._call_soon")
-            ok = ok and cs is not None and "return future.result()" in norm(cs) and norm(cw[0].args[3]) == "partial(loop.run_in_executor, None)" and norm(cw[0].args[4]) == "_call_soon"
+            ok = ok and cs is not None and _bridge_waits(cs) and norm(cw[0].args[3]) == "partial(loop.run_in_executor, None)" and norm(cw[0].args[4]) == "_call_soon"
         else:
             ok = ok and [norm(a) for a in cw[0].args[3:]] == ["trio.to_thread.run_sync", "trio.from_thread.run"]
         ctx.check("C17.R2", f"middleware.wsgi:{cls_}.__call__", "wsgi_app(scope, receive, send, <thread spawn>, <blocking loop bridge>)", ok, "the WSGI middleware must run the application in a thread and wait for each send", mw)
